@@ -24,7 +24,10 @@ ActOf(r) == <<r.op, r.p[1], r.p[2], r.p[3]>>
 \* member actions must name a member of the run's object
 WellFormed(o, a) ==
     IF a[1] \in {"Mutate", "NestedEdit", "Insert", "Delete"} THEN a[2] \in DOMAIN o
+    ELSE IF a[1] = "ForeignEntity" THEN a[2] \in Entities /\ a[3] = Whole /\ a[4] \in EntityForms
+    ELSE IF a[1] = "ForeignEntry" THEN a[2] \in Entities /\ a[3] \in KeyIDs /\ a[4] \in ForeignForms
     ELSE IF a[1] \in SignOps THEN a[2] \in Entities /\ a[3] \in KeyIDs /\ a[4] \in Keys \cup {Junk}
+    ELSE IF a[1] = "SignRefused" THEN a[2] \in Entities /\ a[3] \in KeyIDs /\ a[4] \in Keys
     ELSE TRUE
 
 ObsOK(r, o, s) ==
@@ -46,7 +49,7 @@ Reset(r) ==
     /\ hist' = <<>> /\ slog' = <<>>
     /\ prev' = [obj |-> r.obj, sigs |-> NoSigs, ver |-> {}]
 
-Explicable(r) == WellFormed(obj, ActOf(r)) /\ Legal(obj, ActOf(r)) /\ Len(hist) < MaxLen /\ Len(hist) < start.depth
+Explicable(r) == WellFormed(obj, ActOf(r)) /\ Legal(obj, sigs, ActOf(r)) /\ Len(hist) < MaxLen /\ Len(hist) < start.depth
 
 \* One step per logged line.  A line the specification does not explain is recorded (so the rest of the trace
 \* is still checked in the same run of TLC) and makes the trace rejected.
